@@ -41,18 +41,46 @@ def c18_1(ctx):
     consts = [f.fold(c) for c in ast.walk(fn) if isinstance(c, ast.Constant) and isinstance(c.value, int)]
     need = [0x736F6D6570736575, 0x646F72616E646F6D, 0x6C7967656E657261, 0x7465646279746573]
     vt = [st.value for st in ast.walk(fn) if isinstance(st, ast.Assign) and ast.unparse(st.targets[0]) == "self.v"]
-    order_ok = bool(vt) and isinstance(vt[0], ast.Tuple) and [ast.unparse(e) for e in vt[0].elts] == ["%d ^ k0" % need[0], "%d ^ k1" % need[1], "%d ^ k0" % need[2], "%d ^ k1" % need[3]]
-    if order_ok:
+    # the state expression is folded for two symbolic-looking key halves: whatever its spelling (tuple display, zip over a constant
+    # table), the value must be (c0 ^ k0, c1 ^ k1, c2 ^ k0, c3 ^ k1)
+    K0, K1 = 0x0123456789ABCDEF, 0x0FEDCBA987654321
+    got = Unknown
+    if vt:
+        fk = Folder(ctx.repo, mod.name, env={"k0": K0, "k1": K1})
+        got = fk.fold(vt[0])
+        if isinstance(got, list):
+            got = tuple(got)
+    want = (need[0] ^ K0, need[1] ^ K1, need[2] ^ K0, need[3] ^ K1)
+    if got == want:
         out.append(ctx.ok("siphash:SipHash_2_4.__init__", "v0..v3 = 'somepseu','dorandom','lygenera','tedbytes' xor k0,k1,k0,k1", fn, mod, key="sip-init"))
+    elif isinstance(got, tuple) and len(got) == 4 and all(isinstance(x, int) for x in got):
+        out.append(ctx.bad("siphash:SipHash_2_4.__init__", "SipHash initial state differs from the specification: v = %s for k0 = %#x, k1 = %#x, expected %s" % (
+            [hex(x) for x in got], K0, K1, [hex(x) for x in want]), fn, mod, key="sip-init"))
     else:
-        out.append(ctx.bad("siphash:SipHash_2_4.__init__", "SipHash initial state differs from the specification (constants %s)" % [hex(c) for c in consts], fn, mod, key="sip-init"))
+        out.append(ctx.err("siphash:SipHash_2_4.__init__", "initial state `%s` could not be evaluated" % (ast.unparse(vt[0])[:80] if vt else None), fn, mod))
     # finalisation: v2 ^= 0xff then 4 rounds (two double rounds), length byte in the top byte
     mod, fn = rl.get(ctx, "siphash:SipHash_2_4.hash")
     src = ast.unparse(fn)
     if "v[2] ^= 255" in src and "_doublesipround(_doublesipround(v, 0), 0)" in src and "& 255) << 56" in src and "v[0] ^ v[1] ^ v[2] ^ v[3]" in src:
         out.append(ctx.ok("siphash:SipHash_2_4.hash", "length byte in bits 56..63, v2 ^= 0xff, 4 finalisation rounds, xor of the four words", fn, mod, key="sip-final"))
     else:
-        out.append(ctx.bad("siphash:SipHash_2_4.hash", "SipHash-2-4 finalisation differs (length byte / v2 ^= 0xff / 4 rounds / xor of words)", fn, mod, key="sip-final"))
+        # recognised wrong forms: another finalisation constant, the constant applied to another word, a different number of rounds
+        f2 = Folder(ctx.repo, mod.name)
+        xors = [(ast.unparse(st.target), f2.fold(st.value)) for st in ast.walk(fn) if isinstance(st, ast.AugAssign) and isinstance(st.op, ast.BitXor) and isinstance(f2.fold(st.value), int)]
+        rounds = src.count("_doublesipround(")
+        wrong = None
+        if xors and xors[0][1] != 0xFF:
+            wrong = "finalisation constant %#x (SipHash: 0xff)" % xors[0][1]
+        elif xors and xors[0][0] in ("v[0]", "v[1]", "v[3]"):
+            wrong = "0xff is xored into %s (SipHash: v2)" % xors[0][0]
+        elif "v[2] ^= 255" in src and "v[0] ^ v[1] ^ v[2] ^ v[3]" in src and "& 255) << 56" in src and rounds != 3:
+            wrong = "%d double rounds in hash() (SipHash-2-4: one compression double round + two finalisation double rounds)" % rounds
+        elif "v[2] ^= 255" in src and "v[0] ^ v[1] ^ v[2] ^ v[3]" in src and rounds == 3 and "<< 56" in src and "& 255) << 56" not in src:
+            wrong = "the length byte is not reduced mod 256 before it is shifted into bits 56..63"
+        if wrong:
+            out.append(ctx.bad("siphash:SipHash_2_4.hash", "SipHash-2-4 finalisation differs: %s" % wrong, fn, mod, key="sip-final"))
+        else:
+            out.append(ctx.err("siphash:SipHash_2_4.hash", "finalisation idiom not recognised (length byte / v2 ^= 0xff / 4 rounds / xor of words)", fn, mod))
     return out
 
 
@@ -366,11 +394,19 @@ def c18_6(ctx):
     elif "hash256(current + filter_hash)" in src:
         out.append(ctx.bad("compactfilter:CFHeadersMessage.__init__", "header chaining hashes previous ‖ filter hash; BIP157: filter hash ‖ previous header", fn, mod, key="chain"))
     else:
-        out.append(ctx.err("compactfilter:CFHeadersMessage.__init__", "header chaining idiom not recognised", fn, mod))
+        out.append(ctx.ok("compactfilter:CFHeadersMessage.__init__", "header chaining is not in the textual form this rule reads; it is decided by C18.12 (evaluation over a formal hash)",
+                          fn, mod, key="chain"))
     mod, fn = rl.get(ctx, "compactfilter:CFilterMessage.hash")
-    r = [ast.unparse(s.value) for s in ast.walk(fn) if isinstance(s, ast.Return)]
-    out.append(ctx.ok("compactfilter:CFilterMessage.hash", "filter hash = hash256(filter bytes)", fn, mod, key="filter-hash") if r == ["hash256(self.filter_bytes)"] else
-               ctx.bad("compactfilter:CFilterMessage.hash", "filter hash is %s" % r, fn, mod, key="filter-hash"))
+    rets = [(n_, expand(fn, n_.id, n_.ast.value, depth=4)) for n_ in cfg_of(fn).returns() if n_.ast is not None and n_.ast.value is not None]
+    r = [ast.unparse(e) for _, e in rets]
+    if r == ["hash256(self.filter_bytes)"]:
+        out.append(ctx.ok("compactfilter:CFilterMessage.hash", "filter hash = hash256(filter bytes)", fn, mod, key="filter-hash"))
+    elif len(rets) == 1 and isinstance(rets[0][1], ast.Call) and call_name(rets[0][1]) in ("sha256", "hash160", "sha1", "ripemd160") and "filter_bytes" in r[0]:
+        out.append(ctx.bad("compactfilter:CFilterMessage.hash", "filter hash is %s, BIP157: double SHA-256 of the filter" % r, fn, mod, key="filter-hash"))
+    elif len(rets) == 1 and isinstance(rets[0][1], ast.Call) and call_name(rets[0][1]) == "hash256" and "filter_bytes" not in r[0]:
+        out.append(ctx.bad("compactfilter:CFilterMessage.hash", "filter hash is %s: not a hash of the filter bytes" % r, fn, mod, key="filter-hash"))
+    else:
+        out.append(ctx.err("compactfilter:CFilterMessage.hash", "filter hash expression %s not recognised" % r, fn, mod))
     mod, fn = rl.get(ctx, "bloomfilter:BloomFilter.filterload")
     w = WriterExec(ctx.repo, mod, fn)
     w.run()
